@@ -214,7 +214,9 @@ def run_verus(unit_names, canary=False, seed=None, strict=False, keep=None, extr
                 res.diags.append(dg)
             elif dg.get('level') == 'error' and 'aborting' not in dg.get('message', ''):
                 res.diags.append(dg)
-        compile_errors = [dg for dg in res.diags if dg.get('code')]
+        # anything that is not one of the verifier's own "obligation not discharged" diagnostics is a compile / parse / tool error
+        # (e.g. a hint that landed where no statement may stand): the run did not decide anything
+        compile_errors = [dg for dg in res.diags if dg.get('code') or not VERIF_MSG_RE.search(dg.get('message', ''))]
         vr = (res.json or {}).get('verification-results')
         if compile_errors:
             res.json = None
@@ -255,6 +257,8 @@ def json_strict(fns):
     return out
 
 
+VERIF_MSG_RE = re.compile(r'not satisfied|assertion failed|possible arithmetic|possible division|possible bit shift|out of range|'
+                          r'[Rr]esource limit|rlimit|timed out|termination|unreachable|might not|may not|could not prove|cannot prove|overflow|underflow')
 UNDECIDED_MARKERS = ('resource limit', 'rlimit', 'timed out', 'out of memory', 'internal error', 'not supported', 'unsupported')
 
 
